@@ -60,7 +60,7 @@ def run(ctx):
     ctx.cov['translator_report'] = rep
     ctx.phase('translate')
     ctx.prove(tie_files=['GenTie/ChunkGenTie.v', 'GenTie/DynGenTie.v'], models=['Model/C12Check.v', 'Model/C13Check.v', 'Base/Corr.v'])
-    exe = pf_common.harness()
+    exe = pf_common.harness_copy(ctx)
     l3 = pf_common.machine_l3(exe)
     ctx.cov['machine_l3_groups'] = l3
     hist = {}
@@ -75,7 +75,7 @@ def run(ctx):
         report(ctx, c, r, v, hist, ' witness')
     ctx.cov['witness_verdicts'] = wv
     # 2. generated cases
-    n = 700 if ctx.quick else 20000
+    n = 1000 if ctx.quick else 20000
     cases = pf_common.gen_pf_cases(ctx, n, big_pool_every=0 if ctx.quick else 50)
     cases += pf_common.gen_pf_fullrange_cases(ctx, 40 if ctx.quick else 600)
     if not ctx.quick:                     # all (start, end) pairs of uint8 x modes, 4-thread pool
